@@ -28,7 +28,6 @@ PRELOOP = {"__init__", "check_market", "load_data", "load_pkl_data", "_resample"
            "add_statistic_column", "set_token_data", "formatted_str", "description", "__str__", "data"}
 FRAME_ROOTS = {"self._data", "self.data", "self._token_prices", "self.token_prices"}
 ACTUATOR_INLOOP = ["__set_market_snapshot", "__get_snapshot", "_record_action_list", "notify"]
-NOW_NAMES = {"timestamp", "timestamp_index", "now"}
 FORBIDDEN_METHODS = {"iloc", "iat", "tail", "head", "max", "min", "shift", "rolling", "expanding", "last", "first", "idxmax",
                      "idxmin", "mean", "sum", "describe", "sort_index", "sort_values", "values", "to_numpy", "items", "iterrows",
                      "itertuples", "resample", "bfill", "ffill", "fillna"}
@@ -83,15 +82,21 @@ class TimeRule:
             if isinstance(e.value, ast.Name) and e.value.id in f.params:
                 return True  # the status object handed in for this bar
             return False
+        if isinstance(e, ast.Constant) and e.value is None:
+            return True  # "not given": replaced by the current bar before use (checked through the other definitions)
+        if isinstance(e, ast.IfExp):
+            return self.le_now(e.body, f, depth + 1) and self.le_now(e.orelse, f, depth + 1)
         if isinstance(e, ast.Name):
-            if e.id in f.params and e.id in NOW_NAMES:
-                defs = self._defs(f, e.id)
-                return all(self.le_now(d, f, depth + 1) for d in defs)
             defs = self._defs(f, e.id)
+            if e.id in f.params:
+                # a parameter: what every caller in the repository passes, and every reassignment
+                return all(self.le_now(d, f, depth + 1) for d in defs) and self._callers_pass_le_now(f, e.id, depth)
             if not defs:
-                # loop variable of the bar loop
-                return e.id in NOW_NAMES
+                return self._is_bar_loop_var(f, e.id)
             return all(self.le_now(d, f, depth + 1) for d in defs)
+        if isinstance(e, ast.Subscript) and isinstance(e.value, ast.Name) and isinstance(e.slice, ast.Constant) \
+                and e.slice.value == 0 and self._is_bar_loop_iterable(f, e.value.id):
+            return True  # first element of the range the bar loop iterates: the first bar (initialisation before the loop)
         if isinstance(e, ast.Call) and isinstance(e.func, ast.Attribute):
             if e.func.attr in ("floor", "to_pydatetime", "normalize") :
                 return self.le_now(e.func.value, f, depth + 1)
@@ -103,6 +108,38 @@ class TimeRule:
         if isinstance(e, ast.Call) and ast.unparse(e.func).endswith("index[0].to_pydatetime"):
             return True
         return False
+
+    def _bar_loops(self, f: FuncInfo):
+        for n in ast.walk(f.node):
+            if isinstance(n, ast.For) and any(isinstance(c, ast.Call) and isinstance(c.func, ast.Attribute) and c.func.attr == "on_bar"
+                                              for st in n.body for c in ast.walk(st)):
+                yield n
+
+    def _is_bar_loop_var(self, f: FuncInfo, name: str) -> bool:
+        return any(name in {x.id for x in ast.walk(l.target) if isinstance(x, ast.Name)} for l in self._bar_loops(f))
+
+    def _is_bar_loop_iterable(self, f: FuncInfo, name: str) -> bool:
+        return any(isinstance(l.iter, ast.Name) and l.iter.id == name for l in self._bar_loops(f))
+
+    def _callers_pass_le_now(self, f: FuncInfo, pname: str, depth: int) -> bool:
+        names = {f.name}
+        if f.name.startswith("__") and not f.name.endswith("__"):
+            names.add(f.name)
+        idx = f.params.index(pname) - (1 if (f.is_method or f.is_classmethod) else 0)
+        for g in self.model.all_functions():
+            for c in ast.walk(g.node):
+                if not (isinstance(c, ast.Call) and ((isinstance(c.func, ast.Attribute) and c.func.attr in names)
+                                                     or (isinstance(c.func, ast.Name) and c.func.id in names))):
+                    continue
+                arg = None
+                if 0 <= idx < len(c.args):
+                    arg = c.args[idx]
+                for k in c.keywords:
+                    if k.arg == pname:
+                        arg = k.value
+                if arg is not None and not self.le_now(arg, g, depth + 1):
+                    return False
+        return True
 
     def _defs(self, f: FuncInfo, name: str) -> List[ast.expr]:
         out = []
